@@ -53,6 +53,8 @@ func runC06(l *core.Ledger) {
 	l.With(map[string]string{"C02-T4": "C06-P2"}, func() { c02T4(l, r) })
 	l.With(map[string]string{"C10-N1": "C06-P7"}, func() { c10N1(l, r) })
 	c06P12(l, r, "C06-P12")
+	l.Rule("C06-P13", "ending one call does not cost other calls their messages: no event of a single call (the end of its context) resets the stream that carries the one-way messages of all calls on the node")
+	l.With(map[string]string{"C06-P13": "C06-P13"}, func() { c09W9(l, r) })
 	l.Rule("C06-P11", "a request whose context has ended is not written, and the stream is reset only for a write that is in progress when the context ends (C08-B3 re-run): a reset discards the one-way messages of other calls that the server has received and not yet read - calls that have returned, with contexts that never ended")
 	l.With(map[string]string{"C08-B3": "C06-P11"}, func() { c08B3(l, r) })
 	c06P8(l, r)
@@ -664,15 +666,16 @@ func c06P12(l *core.Ledger, r *rt, rule string) {
 	}
 }
 
-func c06P10(l *core.Ledger, r *rt) {
-	eq := findEnqueueFn(l, r)
+// handoffWaitsForDial derives the facts behind C06-P10 and C07-E8: enqueue hands
+// the request over in a blocking select, the queue can be unbuffered, and the
+// sender dials synchronously between two dequeues.
+func handoffWaitsForDial(l *core.Ledger, r *rt) (eq *ssa.Function, handoff *ssa.Select, canBeUnbuffered bool, dials string) {
+	eq = findEnqueueFn(l, r)
 	sfn, _, _ := findSenderFn(l, r)
 	if eq == nil || sfn == nil {
-		l.Unknown("C06-P10", "anchor/enqueue", token.NoPos, "enqueue or sender not found")
-		return
+		return nil, nil, false, ""
 	}
 	// (1) a blocking hand-off
-	var handoff *ssa.Select
 	sx.AllInstrs(eq, func(_ sx.Node, in ssa.Instruction) {
 		if s2, ok := in.(*ssa.Select); ok && s2.Blocking {
 			for _, st := range s2.States {
@@ -683,7 +686,6 @@ func c06P10(l *core.Ledger, r *rt) {
 		}
 	})
 	// (2) the queue can be unbuffered
-	canBeUnbuffered := false
 	for _, f := range allFuncs(l.Prog, r.pkg) {
 		sx.AllInstrs(f, func(_ sx.Node, in ssa.Instruction) {
 			mc, ok := in.(*ssa.MakeChan)
@@ -697,12 +699,20 @@ func c06P10(l *core.Ledger, r *rt) {
 		})
 	}
 	// (3) the sender dials between two dequeues
-	dials := ""
 	walkBlocking(sfn, func(op blockOp) {
 		if op.kind == "dial" && dials == "" {
 			dials = strings.Join(op.chain, " → ")
 		}
 	})
+	return
+}
+
+func c06P10(l *core.Ledger, r *rt) {
+	eq, handoff, canBeUnbuffered, dials := handoffWaitsForDial(l, r)
+	if eq == nil {
+		l.Unknown("C06-P10", "anchor/enqueue", token.NoPos, "enqueue or sender not found")
+		return
+	}
 	key := fnKey(eq) + "/no-send-waiting-hand-off"
 	if handoff == nil || !canBeUnbuffered || dials == "" {
 		l.OK("C06-P10", key, eq.Pos(), "the hand-off does not wait for a sender that may be dialling")
